@@ -4,13 +4,26 @@ package pclog
 
 // Contracts for govc (see /verif/DESIGN.md). Comment-only file: no executable code.
 
-//@ func (b *ProcessLogBuffer) GetLogRange
+// the window computation, called with the buffer lock held
+//@ func (b *ProcessLogBuffer) getLogRange
+//@   requires held(b.mx)
 //@   let L = len(b.buffer)
 //@   let o = ite(offsetFromEnd < 0, 0, ite(offsetFromEnd > L, L, offsetFromEnd))
 //@   let c = ite(limit < 1 || limit > o, o, limit)
 //@   ensures length: len(result) == c
 //@   ensures window: forall i int :: 0 <= i && i < c ==> result[i] == old(b.buffer[L - o + i])
 //@   assigns nothing
+// the exported entry point takes the lock (C20) and returns exactly that window
+//@ func (b *ProcessLogBuffer) GetLogRange
+//@   requires !held(b.mx)
+//@   let L = len(b.buffer)
+//@   let o = ite(offsetFromEnd < 0, 0, ite(offsetFromEnd > L, L, offsetFromEnd))
+//@   let c = ite(limit < 1 || limit > o, o, limit)
+//@   ensures length: len(result) == c
+//@   ensures window: forall i int :: 0 <= i && i < c ==> result[i] == old(b.buffer[L - o + i])
+//@   ensures atomic: acquires(b.mx) == old(acquires(b.mx)) + 1
+//@   ensures !held(b.mx)
+//@   assigns acquires(b.mx)
 
 // C18: the in-memory log is the most recent suffix of everything written, at least `size` lines once
 // that many were written and never more than size+slack.
@@ -46,8 +59,10 @@ package pclog
 //@   assigns linesSet(observer), entries(b.observers)
 
 //@ func (b *ProcessLogBuffer) GetLogLength
+//@   requires !held(b.mx)
 //@   ensures result == len(b.buffer)
-//@   assigns nothing
+//@   ensures !held(b.mx)
+//@   assigns acquires(b.mx)
 
 // C11: the file logger. A line is queued unless the logger was closed; Close marks the logger closed, closes
 // the queue, waits for the collector goroutine to drain it, and only then flushes the writer and closes the file.
